@@ -22,19 +22,19 @@ package meta
 //@   ensures result != nil
 
 //@ trusted func (*searchStatePool).put
-//@   modifies family H:nfa.BacktrackerState.InputLen, family H:nfa.BacktrackerState.Longest, family E:int
+//@   modifies @searchState
 
 //@ func (*Engine).getSearchState
 //@   props C13 C10 C07
 //@   requires e != nil && e.statePool != nil
-//@   modifies e.localState, family H:nfa.BacktrackerState.Longest, family H:nfa.PikeVM
+//@   modifies @searchState
 //@   ensures result != nil
 //@   ensures (e.boundedBacktracker != nil && result.backtracker != nil) ==> result.backtracker.Longest == e.longest
 
 //@ func (*Engine).putSearchState
 //@   props C13 C07
 //@   requires e != nil && e.statePool != nil
-//@   modifies e.localState, family H:nfa.BacktrackerState.InputLen, family H:nfa.BacktrackerState.Longest, family E:int
+//@   modifies @searchState
 
 // ---- reference semantics of a compiled pattern (uninterpreted: no regex semantics is smuggled in) ----
 // refFound/refStart/refEnd(e, longest, h, at): the match stdlib regexp reports for e's pattern in the given
@@ -54,12 +54,16 @@ package meta
 // engine invariant (establishment by CompileRegexp is ASSUMED, DESIGN 6.0): the forward/reverse DFA pair computes
 // the leftmost-first reference
 //@ spec func dfaLink(e *Engine) bool = (e.dfa != nil ==> (forall h []byte, at int :: dfaFwdEnd(e.dfa, h, at) == ite(refFound(e, false, h, at), refEnd(e, false, h, at), -1))) && ((e.dfa != nil && e.reverseDFA != nil) ==> (forall h []byte, lo int :: refFound(e, false, h, lo) ==> dfaRevStart(e.reverseDFA, h, lo, refEnd(e, false, h, lo)) == refStart(e, false, h, lo)))
-//@ spec func engineOK(e *Engine) bool = e != nil && e.statePool != nil && e.nfa != nil && dfaLink(e)
+// a pattern whose anchored and unanchored start states coincide only matches at offset 0 (ASSUMED link between
+// the NFA start states and the reference semantics)
+//@ spec func anchoredLink(e *Engine) bool = (e.nfa.startAnchored == e.nfa.startUnanchored) ==> (forall l bool, h []byte, at int :: refFound(e, l, h, at) ==> refStart(e, l, h, at) == 0)
+//@ spec func engineOK(e *Engine) bool = e != nil && e.statePool != nil && e.nfa != nil && dfaLink(e) && anchoredLink(e)
+//@ spec func isRefMatch(e *Engine, l bool, h []byte, s int, t int) bool = refFound(e, l, h, s) && refStart(e, l, h, s) == s && refEnd(e, l, h, s) == t
 
 // dispatcher: contract ASSUMED here (the dispatch layer is verified separately, DESIGN 6/C02)
 //@ trusted func (*Engine).findIndicesAtWithState
 //@   requires engineOK(e) && state != nil && 0 <= at && at <= len(haystack)
-//@   modifies family H:nfa, family H:dfa/lazy, family E:uint16, family E:int, family E:dfa/lazy, family E:uint32, family E:*dfa/lazy, family H:internal/sparse, family H:dfa/onepass, family H:meta.Stats
+//@   modifies @searchState
 //@   ensures found == refFound(e, e.longest, haystack, at)
 //@   ensures found ==> start == refStart(e, e.longest, haystack, at) && end == refEnd(e, e.longest, haystack, at)
 //@   ensures !found ==> start == -1 && end == -1
@@ -72,7 +76,31 @@ package meta
 //@ func (*Engine).Count
 //@   props C04 C11 C07 C05
 //@   requires engineOK(e) && len(haystack) <= 140737488355328
+//@   modifies @searchState
 //@   ensures result == cnt(e, e.longest, haystack, 0, -1, n)
 //@   loop 1: invariant 0 <= pos && pos <= len(haystack) + 1 && 0 <= count && count <= pos && (n <= 0 || count < n) && n != 0 && state != nil && lastNonEmptyEnd <= pos
 //@   loop 1: invariant count + cnt(e, e.longest, haystack, pos, lastNonEmptyEnd, ite(n < 0, n, n - count)) == cnt(e, e.longest, haystack, 0, -1, n)
 //@   loop 1: decreases len(haystack) + 1 - pos
+
+// public engine search API: contract ASSUMED at this layer (dispatch layer: DESIGN 6/C02)
+//@ trusted func (*Engine).FindIndices
+//@   requires engineOK(e)
+//@   modifies @searchState
+//@   ensures found == refFound(e, e.longest, haystack, 0)
+//@   ensures found ==> start == refStart(e, e.longest, haystack, 0) && end == refEnd(e, e.longest, haystack, 0)
+//@   ensures !found ==> start == -1 && end == -1
+
+//@ func (*Engine).findAllIndicesLoop
+//@   props C04 C11 C07 C05
+//@   requires engineOK(e) && len(haystack) <= 140737488355328
+//@   modifies results[*], @searchState
+//@   ensures len(result) == cnt(e, e.longest, haystack, 0, -1, ite(n <= 0, -1, n))
+//@   ensures forall k :: 0 <= k && k < len(result) ==> isRefMatch(e, e.longest, haystack, result[k][0], result[k][1])
+//@   ensures forall k :: 0 <= k && k + 1 < len(result) ==> result[k][1] <= result[k+1][0] && result[k][0] < result[k+1][0]
+//@   ensures (base(result) == base(results) && results != nil) || fresh(result)
+//@   loop 1: invariant 0 <= pos && pos <= len(haystack) && len(results) <= pos && lastMatchEnd <= pos && state != nil && (n <= 0 || len(results) <= n)
+//@   loop 1: invariant len(results) + cnt(e, e.longest, haystack, pos, lastMatchEnd, ite(n <= 0, -1, n - len(results))) == cnt(e, e.longest, haystack, 0, -1, ite(n <= 0, -1, n))
+//@   loop 1: invariant forall k :: 0 <= k && k < len(results) ==> isRefMatch(e, e.longest, haystack, results[k][0], results[k][1]) && results[k][1] <= pos && results[k][0] < pos
+//@   loop 1: invariant forall k :: 0 <= k && k + 1 < len(results) ==> results[k][1] <= results[k+1][0] && results[k][0] < results[k+1][0]
+//@   loop 1: invariant (base(results) == base(old(results)) && old(results) != nil) || fresh(results)
+//@   loop 1: exit len(results) == cnt(e, e.longest, haystack, 0, -1, ite(n <= 0, -1, n))
